@@ -3,6 +3,7 @@ package main
 import (
 	"fmt"
 	"go/token"
+	"go/types"
 
 	"golang.org/x/tools/go/ssa"
 )
@@ -13,6 +14,7 @@ func checkC18(c *Ctx) {
 	c18ExpandBlocks(c)
 	c18EvalContext(c)
 	c18Scopes(c)
+	c18Inherit(c)
 	c08UnknownBody(c) // R4: block specs agree on unknown bodies
 	c07Dynblock(c)    // R5: variables reported for expansion
 	c.NotCovered("the 'as if written out' equality of decoded values; iteration order of the for_each collection (delegated to cty's ElementIterator)")
@@ -289,4 +291,53 @@ func c18Scopes(c *Ctx) {
 	check("expandSpec.newBlock", "labels", true)
 	check("exprWrap.Value", "wrapped expression", true)
 	check("expandBody.decodeSpec", "for_each", false)
+}
+
+// R6: a child iteration inherits every enclosing iterator.
+func c18Inherit(c *Ctx) {
+	c.Rule("R6 inherit.complete: the iteration built by (*iteration).MakeChild for a non-nil parent has an Inherited map that receives every entry of the parent's Inherited map (a range-copy loop over it) and the parent itself under the parent's IteratorName — an attribute at nesting depth three or more can still refer to the outermost iterator")
+	fn := c.P.LookupFunc("ext/dynblock", "iteration.MakeChild")
+	if fn == nil {
+		c.CheckerFail("inherit.complete", "anchor (*iteration).MakeChild does not resolve")
+		return
+	}
+	c.Fn(FuncName(fn))
+	recv := fn.Params[0]
+	copied, self := false, false
+	for _, b := range fn.Blocks {
+		for _, ins := range b.Instrs {
+			mu, ok := ins.(*ssa.MapUpdate)
+			if !ok {
+				continue
+			}
+			mt, ok := mu.Map.Type().Underlying().(*types.Map)
+			if !ok {
+				continue
+			}
+			if pt, ok := mt.Elem().(*types.Pointer); !ok || !isNamed(pt.Elem(), dynblockPath, "iteration") {
+				continue
+			}
+			// key/value yielded by ranging over recv.Inherited
+			if ex, ok := mu.Key.(*ssa.Extract); ok {
+				if nx, ok := ex.Tuple.(*ssa.Next); ok {
+					if rg, ok := nx.Iter.(*ssa.Range); ok {
+						if lf := loadedField(rg.X); lf != nil && lf.Name() == "Inherited" {
+							if vx, ok := mu.Value.(*ssa.Extract); ok && vx.Tuple == ex.Tuple {
+								copied = true
+							}
+						}
+					}
+				}
+			}
+			// recv under recv.IteratorName
+			if mu.Value == ssa.Value(recv) || isSpillOf(mu.Value, recv) {
+				if lf := loadedField(mu.Key); lf != nil && lf.Name() == "IteratorName" {
+					self = true
+				}
+			}
+		}
+	}
+	c.Sites += 2
+	c.Check(copied, "inherit.complete", "ext/dynblock.iteration.MakeChild:copy[Inherited]", fn.Pos(), "parent's inherited iterators copied", "the child iteration does not receive the parent's inherited iterators: iterators of blocks two or more levels up are unknown inside the child")
+	c.Check(self, "inherit.complete", "ext/dynblock.iteration.MakeChild:parent", fn.Pos(), "parent bound under its iterator name", "the child iteration does not inherit its parent iterator")
 }
